@@ -140,6 +140,10 @@ func callTargets(c *ssa.CallCommon) []string {
 	case *ssa.MakeClosure:
 		return []string{shortCallee(v.Fn.String())}
 	}
+	// a value of a named func type
+	if n, ok := types.Unalias(c.Value.Type()).(*types.Named); ok {
+		return []string{"(" + shortCallee(typeName(n)) + ")", n.Obj().Name()}
+	}
 	return nil
 }
 
